@@ -1,1 +1,20 @@
-fn main() {}
+//! Checker binary for the properties anchored in `crates/utils`, `crates/chainlink-datastreams`
+//! and `crates/solana-utils` (C26, C27, C28, C34, C35 helper part, C41).
+mod c26;
+mod c27;
+
+use mc_core::{Cli, Report};
+
+fn main() {
+    let cli = Cli::parse();
+    mc_core::quiet_panics();
+    let rep: Report = match cli.property.as_str() {
+        "C26" => c26::run(&cli),
+        "C27" => c27::run(&cli),
+        other => {
+            eprintln!("unknown property {other}");
+            std::process::exit(2)
+        }
+    };
+    std::process::exit(rep.finish(&cli));
+}
